@@ -6,7 +6,7 @@
 //! script := nm  ntasks  task*            modules = 1 + nm % 2 ("a", "b")
 //! task   := len [ mod start step* ]      module = mod % modules; start = 0: spawned by
 //!                                        at_sim_start, else by a message delivered at `start`
-//! step   := 1 d | 2 t | 3 d k x | 4 f a b | 5 p beh k b1..bk | 6 f d1 d2 | 7 d | 8 | 9 ch d | 10 ch
+//! step   := 1 d | 2 t | 3 d k x | 4 f a b | 5 p beh k b1..bk | 6 f d1 d2 | 7 d | 8 | 9 ch d | 10 ch | 11 d ch | 12 f ch d
 //!   1 sleep(d)            2 sleep_until(t)       3 timeout(d, k even: sleep(x) / k odd: Flip)
 //!   4 select!{ sleep(a) => 0, sleep(b) => 1 }, f odd = `biased;`
 //!   5 interval(max(1,p)), behaviour beh%3 (0 Burst 1 Delay 2 Skip), k ticks, sleep(b_i) after tick i if b_i > 0
@@ -14,6 +14,9 @@
 //!   8 log
 //!   9 Box::pin(sleep(d)) polled once (registered), then sent on channel ch of the task's module
 //!   10 receive a boxed Sleep from channel ch of the task's module (log), then await it (log)
+//!   11 timeout(d, receive from channel ch); a received Sleep is dropped
+//!   12 select!{ biased; x = receive from ch => 0 (x dropped), sleep(d) => 1 }, f odd: the receive branch comes first
+//! A task spawned by a message (start > 0) that sends at once is a message event whose handler sends on a channel.
 //!
 //! Output := (len log.. fin)*  ok  end_time
 //!   log records: sleep/sleep_until/reset/drop/log -> now; timeout -> now ok(1)/elapsed(0);
@@ -113,6 +116,8 @@ enum Step {
     Log,
     HandOver(u64, u64),
     RecvAwait(u64),
+    TimeoutRecv(u64, u64),
+    SelRecv(bool, u64, u64),
 }
 
 #[derive(Clone, Debug)]
@@ -185,6 +190,14 @@ fn dec_steps(b: &[u64]) -> Vec<Step> {
             10 if left >= 1 => {
                 out.push(Step::RecvAwait(b[i + 1]));
                 i += 2;
+            }
+            11 if left >= 2 => {
+                out.push(Step::TimeoutRecv(b[i + 1], b[i + 2]));
+                i += 3;
+            }
+            12 if left >= 3 => {
+                out.push(Step::SelRecv(b[i + 1] % 2 == 1, b[i + 2], b[i + 3]));
+                i += 4;
             }
             _ => break,
         }
@@ -281,6 +294,28 @@ async fn interpret(k: usize, m: u64, steps: Vec<Step>) {
                 chan_send((m, ch), s);
                 log(k, &[now()]);
             }
+            Step::TimeoutRecv(d, ch) => {
+                let r = timeout(ns(d), Recv { key: (m, ch), k }).await;
+                let ok = r.is_ok();
+                drop(r);
+                log(k, &[now(), ok as u64]);
+            }
+            Step::SelRecv(recv_first, ch, d) => {
+                let br: u64 = if recv_first {
+                    tokio::select! {
+                        biased;
+                        x = Recv { key: (m, ch), k } => { drop(x); 0 },
+                        _ = sleep(ns(d)) => 1,
+                    }
+                } else {
+                    tokio::select! {
+                        biased;
+                        _ = sleep(ns(d)) => 1,
+                        x = Recv { key: (m, ch), k } => { drop(x); 0 },
+                    }
+                };
+                log(k, &[now(), br]);
+            }
             Step::RecvAwait(ch) => {
                 let s = Recv { key: (m, ch), k }.await;
                 log(k, &[now()]);
@@ -290,6 +325,14 @@ async fn interpret(k: usize, m: u64, steps: Vec<Step>) {
         }
     }
     FIN.lock().unwrap()[k] = true;
+}
+
+/// A receive that is given up (timeout elapsed, select lost) no longer waits on its channel.
+impl Drop for Recv {
+    fn drop(&mut self) {
+        let k = self.k;
+        with_chan(self.key, |c| c.waiters.retain(|w| w.0 != k));
+    }
 }
 
 struct ScriptModule {
